@@ -6,7 +6,7 @@ import ast
 from .. import oracles as O
 from ..fold import Scope, Unfoldable, dotted, src
 from .common import (conj_of_facts, ctx, ff_for, find_calls, inline_property, must_pass, node_calls, own_nodes,
-                     path_text, substitute_src)
+                     path_text, reject_probes, substitute_src)
 
 LN = "canopen/node/local.py"
 SV = "canopen/sdo/server.py"
@@ -234,6 +234,10 @@ def run(chk):
     chk.saw(ei)
     st = [n for n in own_nodes(ei.node) if isinstance(n, ast.Assign) and dotted(n.targets[0]) == "self.code"]
     chk.check(len(st) == 1 and src(st[0].value) == "code", "R5", f"{EX}:SdoAbortedError.__init__ | code stored", ei.loc(), "self.code is not the received code")
+    # whatever the 32 bits of an abort frame hold becomes an SdoAbortedError: the constructor refuses no 32-bit code
+    pn = [a.arg for a in ei.node.args.args][1:2]
+    if pn:
+        reject_probes(chk, "R5", ei, [{pn[0]: v} for v in (0, 1, 0x05040001, 0x06090011, 0x7FFFFFFF, 0x80000000, 0xFFFFFFFE, 0xFFFFFFFF)], "every 32-bit abort code")
 
     # ------------------------------------------------------------------ R6 single writer of data_store
     n_w = 0
